@@ -250,6 +250,8 @@ where
         let now = Instant::now();
 
         let hash = self.inner.hasher.hash_one(key);
+        #[cfg(foyer_verif)]
+        foyer_common::verif::event("delete", hash, 0);
         // A version of the key that still sits in the write queue must not be served by later lookups.
         self.inner.keeper.remove(hash, key);
         self.inner.engine.delete(hash);
